@@ -6,6 +6,6 @@ cp -r /repo/include $D/include
 (cd $D && git init -q . 2>/dev/null; patch -s -p1 < $P) || { echo "patch failed"; rm -rf $D; exit 2; }
 for prop in "$@"; do
   echo "== $(basename $(dirname $P))/$(basename $P) vs $prop"
-  SYMX_REPO=$D SYMX_REPLAY=$D/replay timeout 1500 /verif/check $prop --tier ${TIER:-quick} --no-evidence 2>&1 | grep -E "^VIOLATION|^UNCONFIRMED|^TASK-ERROR|tier=|^KNOWN" | awk '{print substr($0,1,260)}' | sort | uniq -c | sort -rn | awk 'NR<=4 || /tier=/'
+  SYMX_REPO=$D SYMX_REPLAY=$D/replay SYMX_BUILD=$D/build timeout 1500 /verif/check $prop --tier ${TIER:-quick} --no-evidence 2>&1 | grep -E "^VIOLATION|^UNCONFIRMED|^TASK-ERROR|tier=|^KNOWN" | awk '{print substr($0,1,260)}' | sort | uniq -c | sort -rn | awk 'NR<=4 || /tier=/'
 done
 rm -rf $D
